@@ -9,7 +9,7 @@ def nf5Line (addr dg : Bytes) : String :=
   match V5.decode dg with
   | .error e => "nil " ++ e.name
   | .ok m =>
-    "msg " ++ joinNat m.hdr ++ " err=" ++ (match m.err with | none => "-" | some e => e.name) ++
+    "msg " ++ joinNat m.hdr ++ " err=-" ++
     " flows=" ++ "".intercalate (m.flows.map fun f => "[" ++ joinNat f ++ "]") ++
     " json=" ++ (let j := V5.marshal (ipBytes addr) m; if j.isEmpty then "-" else hex j)
 
